@@ -392,10 +392,16 @@ func (fr *frame) visitInstr(instr ssa.Instruction) continuation {
 	case *ssa.IndexAddr:
 		x := fr.get(instr.X)
 		idx := fr.get(instr.Index)
+		_, symIdx := idx.(*Term)
 		switch x := x.(type) {
 		case *absBytes:
 			abandon("cell access into an abstract buffer")
 		case []value:
+			if symIdx && onlyLoaded(instr) {
+				// read-only use with a symbolic index: resolved at the load as an ite-chain
+				fr.env[instr] = &symRef{cells: x, idx: idx, t: instr.Index.Type()}
+				break
+			}
 			k := fr.checkIndex(idx, instr.Index.Type(), len(x))
 			fr.env[instr] = &x[k]
 		case *value: // *array
@@ -403,6 +409,10 @@ func (fr *frame) visitInstr(instr ssa.Instruction) continuation {
 				i.rtPanic(fr, "invalid memory address or nil pointer dereference")
 			}
 			a := (*x).(array)
+			if symIdx && onlyLoaded(instr) {
+				fr.env[instr] = &symRef{cells: a, idx: idx, t: instr.Index.Type()}
+				break
+			}
 			k := fr.checkIndex(idx, instr.Index.Type(), len(a))
 			fr.env[instr] = &a[k]
 		default:
@@ -753,4 +763,29 @@ func (i *interpreter) buildFor(fn *ssa.Function) {
 	if fn.Parent() != nil {
 		i.buildFor(fn.Parent())
 	}
+}
+
+// symRef is the address x[idx] for a symbolic idx when the address is only ever loaded from.
+type symRef struct {
+	cells []value
+	idx   value
+	t     types.Type
+}
+
+// onlyLoaded reports whether every use of the IndexAddr is a load (*p).
+func onlyLoaded(instr *ssa.IndexAddr) bool {
+	refs := instr.Referrers()
+	if refs == nil || len(*refs) == 0 {
+		return false
+	}
+	for _, r := range *refs {
+		u, ok := r.(*ssa.UnOp)
+		if !ok || u.Op != token.MUL {
+			if _, isDbg := r.(*ssa.DebugRef); isDbg {
+				continue
+			}
+			return false
+		}
+	}
+	return true
 }
